@@ -85,6 +85,12 @@ CHECKS = {
             "accepted by the repaired bound, as is depth 41) + correspondence: mirror's rhs_matrix / jacobian evaluated by the extracted "
             "evaluator vs sympytools lambdified; direct: free symbols, values vs generated rhs, Jacobian vs central differences.",
             "Gallina model of rhs_matrix with meaning-preservation theorem, D_sound over R + differential / finite-difference execution"),
+    "C16": ("Theorems (the nested combination agrees with the original at regular points and gives the replacement at a singular "
+            "point, for any number of singularities and every carrier with selection laws; nothing changes without removable "
+            "singularities; the summed combination the code uses equals the nested one for one singularity - C16_partial - and counts "
+            "the expression k times for k - refuted, known finding) + direct: ode vs remove_singularities() on and off the singular "
+            "points for 0-3 singularities, single and split layouts, limits re-checked with 50-digit arithmetic.",
+            "Gallina model of both combinations with theorems + on/off-singularity differential execution"),
 }
 
 def main():
